@@ -15,6 +15,7 @@ import (
 	"github.com/dolthub/dolt/go/store/prolly/tree"
 	"github.com/dolthub/dolt/go/store/types"
 
+	"verif/engines/vstore"
 	"verif/rig"
 )
 
@@ -32,10 +33,11 @@ func Register() {
 		RaceFuncs: c20RaceFuncs,
 		Stages: []rig.Stage{
 			{Name: "lin", Fn: c20, Race: true, TimeoutQuick: 30 * time.Minute, TimeoutThorough: 4 * time.Hour}}})
-	rig.Register(&rig.Spec{Prop: "C21", Level: "exploration",
+	rig.Register(&rig.Spec{Prop: "C21", Level: "fault_enumeration",
 		RaceFuncs: c20RaceFuncs,
 		Stages: []rig.Stage{
-			{Name: "pairs", Fn: c21, Race: true, TimeoutQuick: 30 * time.Minute, TimeoutThorough: 4 * time.Hour}}})
+			{Name: "pairs", Fn: c21, Race: true, TimeoutQuick: 30 * time.Minute, TimeoutThorough: 4 * time.Hour},
+			{Name: "crash", Fn: vstore.C21Crash, TimeoutQuick: 30 * time.Minute, TimeoutThorough: 4 * time.Hour}}})
 	rig.Register(&rig.Spec{Prop: "C44", Level: "exploration", Stages: []rig.Stage{
 		{Name: "names", Fn: c44, TimeoutQuick: 20 * time.Minute, TimeoutThorough: 3 * time.Hour}}})
 }
